@@ -29,7 +29,7 @@ def run(m):
         if b.returncode != 0:
             return (m, 'nobuild', None)
         e2 = dict(env, CFFVERIF_REPO=d + '/repo', CFFVERIF_DIR=d)
-        o = subprocess.run([os.path.join(root, 'bin/cffverif'), 'obligations', '--engines', engines], env=e2, capture_output=True)
+        o = subprocess.run([os.environ.get('CFFVERIF_BIN', os.path.join(root, 'bin/cffverif')), 'obligations', '--engines', engines], env=e2, capture_output=True)
         try:
             obl = json.loads(o.stdout)
         except Exception:
